@@ -22,6 +22,7 @@ from edb.schema import name as sn
 from edb.schema import objects as so
 from edb.schema import objtypes as s_ot
 from edb.schema import properties as s_props
+from edb.schema import pseudo as s_pseudo
 from edb.schema import scalars as s_scalars
 from edb.schema import schema as s_schema
 from edb.schema import types as s_types
@@ -126,6 +127,20 @@ def set_type_field(schema, name, field, value):
                                                         special_syntax=True)))
 
 
+def set_type_ref_field(schema, name, field, target_names):
+    """AlterObjectType setting an object-set field (union_of / intersection_of:
+    internal fields the compiler sets when it derives union / intersection
+    types) to the given types, or resetting it when `target_names` is None.
+    Built as a command object: there is no DDL syntax for these fields."""
+    obj = schema.get(Q(name))
+    alter = s_ot.AlterObjectType(classname=Q(name))
+    value = None
+    if target_names is not None:
+        value = so.ObjectSet.create(schema, [schema.get(Q(t)) for t in target_names])
+    alter.set_attribute_value(field, value, orig_value=obj.get_explicit_field_value(schema, field, None))
+    return run(schema, alter)
+
+
 # ---- pointers -------------------------------------------------------------------
 
 def create_property(schema, typ, pname, target='std::str', required=False, multi=False):
@@ -206,14 +221,20 @@ def _create_abstract_ptr(schema, name, cls, ccls, bases):
 
 
 _BASE = None
+_STD = None
+
+
+def std_schema():
+    """The std stand-in alone (no user module): the starting point for SDL."""
+    base_schema()
+    return _STD
 
 
 def base_schema():
-    global _BASE
+    global _BASE, _STD
     if _BASE is None:
         s = s_schema.EMPTY_SCHEMA
         s = create_module(s, 'std', stdmode=True)
-        s = create_module(s, 'default')
         s = _create_type_cmd(s, 'std::BaseObject', bases=(), stdmode=True)
         s = _create_type_cmd(s, 'std::Object', bases=('std::BaseObject',), stdmode=True)
         s = _create_scalar(s, 'std::str')
@@ -223,10 +244,14 @@ def base_schema():
         s = _create_abstract_ptr(s, 'std::source', s_props.Property, s_props.CreateProperty, ['std::property'])
         s = _create_abstract_ptr(s, 'std::target', s_props.Property, s_props.CreateProperty, ['std::property'])
         s = _create_abstract_ptr(s, 'std::link', s_links.Link, s_links.CreateLink, [])
+        # pseudo types looked up by the SDL layer (edgeql/declarative.py)
+        for pt in ('anytype', 'anytuple', 'anyobject'):
+            s, _ = s_pseudo.PseudoType.create_in_schema(s, name=sn.UnqualName(pt))
         # DDL applied from an AST (ddl.delta_and_schema_from_ddl) bumps the schema version object
         s, _ = s_ver.SchemaVersion.create_in_schema(
             s, name=sn.UnqualName('__schema_version__'), version=uuid.UUID(int=7), internal=True)
-        _BASE = s
+        _STD = s
+        _BASE = create_module(s, 'default')
     return _BASE
 
 
